@@ -215,7 +215,7 @@ func uriTwin(r *common.Rand, g *common.Gen, a enc.Name) enc.Name {
 		g.Stat("twin-generic-spells-typed")
 		if c.Typ == 8 {
 			// make the typed component the generic value spells, when it spells one
-			if t, err := enc.ComponentFromStr(string(c.Val)); err == nil && len(c.Val) < 200 {
+			if t, err := safeComponentFromStr(string(c.Val)); err == nil && len(c.Val) < 200 {
 				b[i] = t
 			} else {
 				b[i] = enc.Component{Typ: 8, Val: []byte("32=" + string(c.Val))}
@@ -237,6 +237,16 @@ func uriTwin(r *common.Rand, g *common.Gen, a enc.Name) enc.Name {
 }
 
 // safeComponentFromBytes: the generator must not die on what the decoder does with arbitrary bytes
+// safeComponentFromStr: the generator must survive a parser that panics (the exec side reports it)
+func safeComponentFromStr(s string) (c enc.Component, err error) {
+	defer func() {
+		if recover() != nil {
+			err = fmt.Errorf("panic")
+		}
+	}()
+	return enc.ComponentFromStr(s)
+}
+
 func safeComponentFromBytes(b []byte) (c enc.Component, err error) {
 	defer func() {
 		if recover() != nil {
